@@ -11,7 +11,7 @@ d = f"/verif/seeded/{sid}"
 meta = json.load(open(d + "/meta.json"))
 env = dict(os.environ, LINES_MAX="8")
 t0 = time.time()
-p = subprocess.run(["/verif/tools/mutant.sh", d + "/patch.diff"] + checks, env=env, stdout=subprocess.PIPE, stderr=subprocess.STDOUT, text=True)
+p = subprocess.run(["/verif/tools/mutant.sh", d + "/patch.diff"] + checks, env=env, stdout=subprocess.PIPE, stderr=subprocess.STDOUT, text=True, errors="replace")
 res, cur = {}, None
 for ln in p.stdout.splitlines():
     m = re.match(r"MUTANT-RESULT (\S+) exit=(\d+)", ln)
